@@ -14,6 +14,7 @@ import (
 	"net/http/httptest"
 	"sort"
 	"sync"
+	"sync/atomic"
 
 	"os"
 	"path/filepath"
@@ -294,6 +295,7 @@ type simTransport struct {
 	// census of the last POST body
 	lastBodyBytes int
 	chunkMax      int
+	inflight      atomic.Int32 // handlers running
 }
 
 type simBody struct {
@@ -362,8 +364,10 @@ func (tr *simTransport) RoundTrip(req *http.Request) (*http.Response, error) {
 	sreq = sreq.WithContext(context.Background())
 	rec := httptest.NewRecorder()
 	done := make(chan struct{})
+	tr.inflight.Add(1)
 	tr.s.Go(fmt.Sprintf("handler %s %s", req.Method, req.URL.Path), 1, func() {
 		defer close(done)
+		defer tr.inflight.Add(-1)
 		tr.handler.ServeHTTP(rec, sreq)
 	})
 	<-done
